@@ -35,7 +35,7 @@ ASSUMED = [
 
 REPS = [["N"], ["b", True], ["i", 3], ["f", (2.5).hex()], ["c", (1.0).hex(), (2.0).hex()], ["s", "a"],
         ["y", "6162"], ["d", 738000], ["dt", 738000, 3600], ["F", (2.0).hex()], ["S", "zz"], ["IE", 2],
-        ["I2", 5], ["DT2", 738001, 0], ["Dec", "1.5"], ["Fr", 1, 3], ["td", 2], ["U1", 0], ["U2", 0],
+        ["I2", 5], ["DT2", 738001, 0], ["Dec", "1.5"], ["Fr", 1, 3], ["td", 2], ["U1", 0], ["U2", 0], ["U1b", 0],
         ["O"], ["l", [["i", 1]]], ["t", [["i", 1]]], ["D", []]]
 KINDS = ["KBool", "KInt", "KFloat", "KComplex", "KStr", "KBytes", "KDateTime", "KDate", "KList", "KDict",
          "KTuple", "(KOther 0)", "(KOther 3)", "KObject"]
@@ -149,7 +149,10 @@ def write_case(rng):
     if form == "slice":
         lo = rng.randrange(ln)
         pos = list(range(lo, rng.randint(lo + 1, ln)))
-    return {"op": "write", "a": a, "form": form, "pos": pos, "vals": rand_vec(rng, len(pos), ladder)}
+    return {"op": "write", "a": a, "form": form, "pos": pos, "vals": rand_vec(rng, len(pos), ladder),
+            # every None the vector holds is first overwritten, one cell at a time, by a value of its own kind: the dtype stays
+            # what it was - nullable - although no None is left, and the write that follows starts from THAT dtype
+            "prefill": rng.random() < 0.4}
 
 
 def lshift_case(rng):
@@ -296,6 +299,11 @@ def observe(case):
                     "cols": [{"vals": [V.enc(x) for x in r._underlying], "dt": V.schema_obs(r.schema())}]}
         if op == "write":
             v = Vector([V.dec(x) for x in case["a"]])
+            if case.get("prefill"):
+                own = [V.dec(x) for x in case["a"] if x[0] != "N"]
+                for i, x in enumerate(case["a"]):
+                    if x[0] == "N" and own:
+                        v[i] = own[0]
             before = V.schema_obs(v.schema())
             vals, pos, form = [V.dec(x) for x in case["vals"]], case["pos"], case["form"]
             tgt = v
